@@ -7,7 +7,7 @@
   (= `Sorted d`: the definitions are presented in a topological order; exists iff the hierarchy is
   acyclic); the driver checks both on every input.
 -/
-import Spydr.Hier.LemmasUp
+import Spydr.Hier.LemmasFuel
 import Spydr.Hier.LemmasCanon
 import Spydr.Hier.Example
 
@@ -309,6 +309,13 @@ theorem queries_on_hcable {d : Design} (hwf : WF d) (x : HRef) (rec : Bool) {C :
     · rintro ⟨w, hw, rfl⟩; exact ⟨w, hw, rfl⟩
   · simp [getHInstances, hinstsOfHRef, resolve_complete hwf hx, dedup]
 
+/-- **the searches of C11 always finish**: the `finished` flags of the hypotheses above are provably
+    `true` (potential-function argument over the finite set of instance identities). -/
+theorem search_finished {d : Design} (hwf : WF d) (root : Root) (rec : Bool) (h : HRef) :
+    (hrefsOfItem d root).2 = true ∧ (getHPorts d root rec).2 = true ∧ (getHPins d root rec).2 = true ∧
+    (isUnique d h).2 = true :=
+  ⟨hrefsOfItem_finished hwf root, hrefsOfItem_finished hwf root, hrefsOfItem_finished hwf root, isUnique_finished hwf h⟩
+
 /-! ### names -/
 
 /-- **`HRef.name`** = slash-joined instance names below the top (+ bundle name, + `[lower+index]`). -/
@@ -356,31 +363,21 @@ theorem intern_distinct (t : Fly) (hi : t.Inv) (a b : HRef) (hne : a ≠ b) :
 
 theorem intern_inv (t : Fly) (hi : t.Inv) (h : HRef) : (t.intern h).1.Inv := Fly.intern_inv t h hi
 
-/-! ### uniqueness
+/-! ### uniqueness -/
 
-  Full statement (NOT yet proved; kept on purpose):
-    theorem isUnique_iff : WF d → Acyclic d → (isUnique d h).2 = true →
-        ((isUnique d h).1 = true ↔ ValidPath d h ∧ ∀ h', ValidPath d h' → h'.head? = h.head? → h' = h)
-  Proved: the parts below.  Missing: the equivalence between "some alternative instance of an owning
-  definition is reachable from the top" (what the upward search decides) and the existence of a second
-  valid path with the same last item (needs a re-basing lemma for `Occ` along a common prefix).
-  The harness checks the full statement against an independent path enumeration on every generated
-  reference, before and after edits. -/
+/-- **`is_unique`** (repaired code) is true exactly when the reference is valid and is the only
+    occurrence of its element; `finished` = the upward search emptied its work list within its fuel.
+    Together with `isValid_iff` this is "a reference reports invalid / unique or not in agreement with
+    the current netlist", for any design — in particular after edits. -/
+theorem isUnique_iff {d : Design} (hwf : WF d) (hs : Acyclic d) (h : HRef) :
+    ((isUnique d h).1 = true ↔ ∃ e, Occ d h e ∧ ∀ h', Occ d h' e → h' = h) ∧ (isUnique d h).2 = true :=
+  ⟨isUnique_iff' hwf hs h (isUnique_finished hwf h), isUnique_finished hwf h⟩
 
-theorem isUnique_partial {d : Design} (hwf : WF d) (h : HRef) :
-    ((isUnique d h).1 = true → ValidPath d h) ∧ (¬ ValidPath d h → isUnique d h = (false, true)) := by
-  constructor
-  · intro hu
-    unfold isUnique at hu
-    split at hu
-    · rename_i hv
-      exact (isValid_iff hwf h).mp hv
-    · cases hu
-  · intro hnv
-    unfold isUnique
-    rw [if_neg]
-    intro hv
-    exact hnv ((isValid_iff hwf h).mp hv)
+theorem isUnique_invalid {d : Design} (hwf : WF d) (h : HRef) (hnv : ¬ ValidPath d h) : isUnique d h = (false, true) := by
+  unfold isUnique
+  rw [if_neg]
+  intro hv
+  exact hnv ((isValid_iff hwf h).mp hv)
 
 /-! ### non-vacuity -/
 
